@@ -151,3 +151,396 @@ Proof.
   - intros Hk. apply pod_key_inj in Hk; [|done|done]. assert (k = key) as -> by congruence.
     assert (q = p) as -> by congruence. done.
 Qed.
+
+(** * Bind *)
+
+Lemma assign_loop_frame key node a reused fl ips : ∀ w idx ridx w' r,
+  assign_loop w key node a ips reused idx ridx fl = (w', r) →
+  w_pods w' = w_pods w ∧ w_lister w' = w_lister w ∧ w_queue w' = w_queue w ∧
+  (Inv2 (w_ipam w) → Inv2 (w_ipam w')) ∧
+  chg (eq key) key (a_uid a) (w_ipam w) (w_ipam w') ∧
+  (r = SOk → ∀ x, x ∈ ips → existsb (N.eqb x) reused = true →
+     ∃ e, i_alloc (w_ipam w') !! x = Some e ∧ e_key e = key ∧ e_uid e = a_uid a).
+Proof.
+  induction ips as [|x rest IH]; intros w idx ridx w' r H; cbn [assign_loop] in H.
+  { inversion H; subst. split_and!; try done; [by apply chg_refl|]. intros _ x Hx. set_solver. }
+  destruct (w_provider w && bool_decide (f_cloud fl = Some idx)) eqn:Ef.
+  { inversion H; subst. split_and!; try done. by apply chg_refl. }
+  set (w1 := if w_provider w then cloud_assign w x node else w) in *.
+  assert (w_pods w1 = w_pods w ∧ w_lister w1 = w_lister w ∧ w_queue w1 = w_queue w ∧ w_ipam w1 = w_ipam w)
+    as (Ep1 & El1 & Eq1 & Ei1) by (unfold w1; destruct (w_provider w); done).
+  clearbody w1.
+  destruct (existsb (N.eqb x) reused) eqn:Ex.
+  - destruct (update_attr (w_ipam w1) key x a (bool_decide (f_update fl = Some ridx))) as [i' ra] eqn:Eu.
+    pose proof (inv2_update_attr (w_ipam w1) key x a (bool_decide (f_update fl = Some ridx))) as HI. rewrite Eu in HI.
+    simpl in HI. rewrite Ei1 in *.
+    destruct ra; try (inversion H; subst; split_and!; try done; try apply chg_refl; congruence).
+    apply IH in H as (Ep & El & Eq & Hinv & Hc & Hok). cbn [set_ipam w_ipam w_pods w_lister w_queue] in *.
+    apply update_attr_spec in Eu as [(_ & e & He & Hk & Hal & _)|[? _]]; [|done].
+    assert (chg (eq key) key (a_uid a) (w_ipam w) i') as Hc1.
+    { eapply chg_insert_upd; [exact He|by symmetry|exact Hal|done|done]. }
+    split_and!; try congruence; [auto|by eapply chg_trans|].
+    intros -> y Hy Hr. apply elem_of_cons in Hy as [->|Hy]; [|by apply Hok].
+    apply (chg_keeps _ _ _ _ _ x (assign e key a (i_clock (w_ipam w))) Hc); [|done|done].
+    rewrite Hal, lookup_insert. reflexivity.
+  - apply IH in H as (Ep & El & Eq & Hinv & Hc & Hok). rewrite Ei1 in *.
+    split_and!; try congruence; try done.
+    intros -> y Hy Hr. apply elem_of_cons in Hy as [->|Hy]; [congruence|by apply Hok].
+Qed.
+
+(** ** pods/binding *)
+Definition bound_pod (q : pod) (node : str) (ips : list N) : pod :=
+  {| pd_ns := pd_ns q; pd_name := pd_name q; pd_uid := pd_uid q; pd_kind := pd_kind q; pd_app := pd_app q;
+     pd_pool := pd_pool q; pd_policy := pd_policy q; pd_ranges := pd_ranges q; pd_phase := pd_phase q;
+     pd_node := node; pd_ips := ips |}.
+
+Lemma bound_pod_static q node ips : same_static (bound_pod q node ips) q.
+Proof. repeat split. Qed.
+Lemma bound_pod_wf q node ips : wf_pod q → wf_pod (bound_pod q node ips).
+Proof. intros [H1 H2 H3 H4 H5]. split; done. Qed.
+
+Lemma api_bind_cases w key uid node ips inj w3 out : api_bind w key uid node ips inj = (w3, out) →
+  match out with
+  | BindOk => ∃ q, w_pods w !! key = Some q ∧ (uid = [] ∨ uid = pd_uid q) ∧ pd_node q = [] ∧
+                   w3 = set_pods w (<[key := bound_pod q node ips]> (w_pods w))
+  | BindNotFound => w3 = w ∧ w_pods w !! key = None
+  | BindFail => w3 = w
+  end.
+Proof.
+  unfold api_bind. destruct inj; [intros H; by inversion H|].
+  destruct (w_pods w !! key) as [q|] eqn:Eq; [|intros H; by inversion H].
+  destruct (negb _) eqn:Eu; [intros H; by inversion H|].
+  destruct (negb (Keys.is_empty (pd_node q))) eqn:En; intros H; inversion H; subst; clear H; [done|].
+  exists q. split_and!; try done.
+  - apply negb_false_iff in Eu. destruct uid; [by left|right]. by destruct (str_eqb_spec (a :: uid) (pd_uid q)).
+  - apply negb_false_iff in En. by destruct (pd_node q).
+Qed.
+
+(** the truth object at [key] gets a node and IPs that are allocated to its key for its UID *)
+Lemma winv_bound w key q l node ips :
+  WInv w → w_pods w !! key = Some q → w_lister w !! key = Some l → pd_uid q = pd_uid l →
+  (∀ x, x ∈ ips → ∃ e, i_alloc (w_ipam w) !! x = Some e ∧ e_key e = pod_key l ∧ e_uid e = pd_uid l) →
+  (∀ x e, i_alloc (w_ipam w) !! x = Some e → e_key e = pod_key l → e_uid e = [] ∨ e_uid e = pd_uid l) →
+  WInv (set_pods w (<[key := bound_pod q node ips]> (w_pods w))).
+Proof.
+  intros HW Hq Hl Hu Hips Hall. destruct (wi_pods w HW key q Hq) as [Hqk Hqwf].
+  destruct (same_static_key _ _ (wi_static w HW key q l Hq Hl Hu)) as (Hkey & _ & _).
+  split; cbn [set_pods w_ipam w_pods w_lister w_queue].
+  - apply (wi_ipam w HW).
+  - intros k p Hp. destruct (decide (k = key)) as [->|Hne].
+    + rewrite lookup_insert in Hp. inversion Hp; subst. split; [done|by apply bound_pod_wf].
+    + rewrite lookup_insert_ne in Hp by done. by apply (wi_pods w HW).
+  - apply (wi_lister w HW).
+  - eapply Forall_impl; [apply (wi_queue w HW)|]. intros e [Hewf He]. split; [done|]. intros p Hp Hpu.
+    destruct (decide (pk e = key)) as [Hek|Hne].
+    + rewrite Hek, lookup_insert in Hp. inversion Hp; subst p. rewrite <- Hek in Hq. apply (He q Hq Hpu).
+    + rewrite lookup_insert_ne in Hp by done. by apply He.
+  - intros k p l' Hp Hl' Hpu. destruct (decide (k = key)) as [->|Hne].
+    + rewrite lookup_insert in Hp. inversion Hp; subst p. apply (wi_static w HW key q l' Hq Hl' Hpu).
+    + rewrite lookup_insert_ne in Hp by done. by apply (wi_static w HW k).
+  - intros k p Hp Hpi. destruct (decide (k = key)) as [->|Hne].
+    + rewrite lookup_insert in Hp. inversion Hp; subst p. exists l. split; [done|]. by symmetry.
+    + rewrite lookup_insert_ne in Hp by done. by apply (wi_seen w HW k).
+  - intros k p Hp Hlb. destruct (decide (k = key)) as [->|Hne].
+    + rewrite lookup_insert in Hp. inversion Hp; subst p.
+      assert (pod_key (bound_pod q node ips) = pod_key l) as Hk by (rewrite <- Hkey; reflexivity).
+      split; rewrite Hk; cbn [bound_pod pd_ips pd_uid]; rewrite Hu; [exact Hips|exact Hall].
+    + rewrite lookup_insert_ne in Hp by done. by apply (wi_owned w HW k).
+Qed.
+
+(** ** the allocation step of Bind *)
+Definition somes (slots : list (option N)) : list N :=
+  List.concat (map (fun s => match s with Some x => [x] | None => [] end) slots).
+
+Lemma elem_of_somes x slots : x ∈ somes slots ↔ Some x ∈ slots.
+Proof.
+  unfold somes. induction slots as [|[y|] slots IH]; simpl.
+  - split; intros H; inversion H.
+  - rewrite !elem_of_cons, IH. split; (intros [H|H]; [left; congruence|by right]).
+  - rewrite elem_of_cons, IH. split; [by right|]. intros [H|H]; [discriminate|done].
+Qed.
+
+Lemma existsb_eqb_elem x (l : list N) : x ∈ l → existsb (N.eqb x) l = true.
+Proof. intros H. apply existsb_exists. exists x. split; [by apply elem_of_list_In|apply N.eqb_refl]. Qed.
+
+(** adding candidates can only put a NEW candidate into a slot *)
+Lemma first_in_ranges_mono (f f' : N → bool) : (∀ y, f y = true → f' y = true) →
+  ∀ rs fuel x, first_in_ranges f' fuel rs = Some (Some x) → f x = true → first_in_ranges f fuel rs = Some (Some x).
+Proof.
+  intros Hff. induction rs as [|r rs IH]; intros fuel x H Hx; simpl in H; [discriminate|]. simpl.
+  assert (∀ fuel cur,
+    (fix go (fuel : nat) (cur : N) {struct fuel} : option (option N) :=
+       match fuel with
+       | 0%nat => None
+       | S fuel' =>
+           if cur <=? snd r
+           then if f' cur then Some (Some cur)
+                else if cur =? snd r then first_in_ranges f' fuel' rs else go fuel' (cur + 1)
+           else first_in_ranges f' fuel' rs
+       end) fuel cur = Some (Some x) →
+    (fix go (fuel : nat) (cur : N) {struct fuel} : option (option N) :=
+       match fuel with
+       | 0%nat => None
+       | S fuel' =>
+           if cur <=? snd r
+           then if f cur then Some (Some cur)
+                else if cur =? snd r then first_in_ranges f fuel' rs else go fuel' (cur + 1)
+           else first_in_ranges f fuel' rs
+       end) fuel cur = Some (Some x)) as Hgo.
+  { clear H fuel. induction fuel as [|fuel IHf]; intros cur H; [discriminate|].
+    destruct (cur <=? snd r) eqn:Ele; [|by apply IH].
+    destruct (f' cur) eqn:Ef'.
+    - inversion H; subst. by rewrite Hx.
+    - destruct (f cur) eqn:Ef; [apply Hff in Ef; congruence|].
+      destruct (cur =? snd r); [by apply IH|by apply IHf]. }
+  by apply Hgo.
+Qed.
+
+Lemma by_key_ranges_old s s' key rss x :
+  (∀ y e, i_alloc s !! y = Some e → e_key e = key → ∃ e', i_alloc s' !! y = Some e' ∧ e_key e' = key) →
+  Some x ∈ by_key_ranges s' key rss → (∃ e, i_alloc s !! x = Some e ∧ e_key e = key) →
+  Some x ∈ by_key_ranges s key rss.
+Proof.
+  intros Hmono Hin (e & He & Hk). unfold by_key_ranges in *.
+  apply elem_of_list_fmap in Hin as (rs & Hrs & Hin). apply elem_of_list_fmap. exists rs. split; [|done].
+  destruct (first_in_ranges _ (ranges_fuel rs) rs) as [o|] eqn:E1 in Hrs; [|discriminate]. subst o.
+  erewrite first_in_ranges_mono; [done| |exact E1|].
+  - intros y. simpl. destruct (i_alloc s !! y) as [ey|] eqn:Ey; [|discriminate]. intros Hy.
+    destruct (str_eqb_spec (e_key ey) key) as [Hky|]; [|discriminate].
+    destruct (Hmono y ey Ey Hky) as (e' & -> & ->). apply str_eqb_refl.
+  - simpl. rewrite He, Hk. apply str_eqb_refl.
+Qed.
+
+Lemma by_key_ranges_keyed s key rss x : Some x ∈ by_key_ranges s key rss → ∃ e, i_alloc s !! x = Some e ∧ e_key e = key.
+Proof.
+  unfold by_key_ranges. intros Hin. apply elem_of_list_fmap in Hin as (rs & Hrs & Hin).
+  destruct (first_in_ranges _ (ranges_fuel rs) rs) as [o|] eqn:E1 in Hrs; [|discriminate]. subst o.
+  apply first_in_ranges_spec in E1 as [Hf _]. simpl in Hf.
+  destruct (i_alloc s !! x) as [e|]; [|discriminate]. exists e. split; [done|].
+  by destruct (str_eqb_spec (e_key e) key).
+Qed.
+
+(** the [alloc_res] expression of [bind_section] *)
+Definition bind_alloc (w : world) (key node : str) (rss : list (list range)) (slots : list (option N)) (a : attr)
+    (o : oracle) (fl : faults) : option (world * option (list N)) :=
+  let i := w_ipam w in
+  let reused := List.concat (map (fun s => match s with Some x => [x] | None => [] end) slots) in
+  let missing := List.concat (map (fun sr => match fst sr with None => [snd sr] | Some _ => [] end) (combine slots rss)) in
+  let need_alloc := match missing, slots with _ :: _, _ => true | _, [] => true | _, _ => false end in
+  if need_alloc then
+    match w_nodes w !! node with
+    | None => Some (w, None)
+    | Some nip =>
+        match node_subnet i nip with
+        | None => Some (w, None)
+        | Some sn =>
+            match missing with
+            | [] => match alloc_in_subnet i key sn a (o_choice o) (bool_decide (f_store fl = Some 0%nat)) with
+                    | (i', AOk, Some x) => Some (set_ipam w i', Some [x])
+                    | (_, AStuck, _) => None
+                    | (_, _, _) => Some (w, None)
+                    end
+            | _ => match alloc_ranges i key sn missing a (f_store fl) with
+                   | (i', AOk, _) =>
+                       Some (set_ipam w i', Some (List.concat (map (fun s => match s with Some x => [x] | None => [] end)
+                                                                    (by_key_ranges i' key rss))))
+                   | (_, AStuck, _) => None
+                   | (_, _, _) => Some (w, None)
+                   end
+            end
+        end
+    end
+  else Some (w, Some reused).
+
+Lemma bind_alloc_spec w key node rss slots a o fl w1 oips :
+  Inv2 (w_ipam w) → (rss ≠ [] → slots = by_key_ranges (w_ipam w) key rss) →
+  bind_alloc w key node rss slots a o fl = Some (w1, oips) →
+  w_pods w1 = w_pods w ∧ w_lister w1 = w_lister w ∧ w_queue w1 = w_queue w ∧ Inv2 (w_ipam w1) ∧
+  chg (eq key) key (a_uid a) (w_ipam w) (w_ipam w1) ∧
+  (oips = None → w1 = w) ∧
+  (∀ ips, oips = Some ips → ∀ x, x ∈ ips →
+     existsb (N.eqb x) (somes slots) = true ∨ ∃ e, i_alloc (w_ipam w1) !! x = Some e ∧ e_key e = key ∧ e_uid e = a_uid a).
+Proof.
+  intros HI Hslots H. unfold bind_alloc in H. cbv zeta in H.
+  assert (∀ v, Some (w, v) = Some (w1, oips) → v = None ∨ v = Some (somes slots) →
+    w_pods w1 = w_pods w ∧ w_lister w1 = w_lister w ∧ w_queue w1 = w_queue w ∧ Inv2 (w_ipam w1) ∧
+    chg (eq key) key (a_uid a) (w_ipam w) (w_ipam w1) ∧ (oips = None → w1 = w) ∧
+    (∀ ips, oips = Some ips → ∀ x, x ∈ ips →
+       existsb (N.eqb x) (somes slots) = true ∨ ∃ e, i_alloc (w_ipam w1) !! x = Some e ∧ e_key e = key ∧ e_uid e = a_uid a))
+    as Hsame.
+  { intros v Hv Hvv. inversion Hv; subst. split_and!; try done; [by apply chg_refl|].
+    intros ips Hips x Hx. left. destruct Hvv as [?|Hvv]; [congruence|]. apply existsb_eqb_elem. congruence. }
+  match type of H with (if ?X then _ else _) = _ => destruct X eqn:Eneed end; [|apply (Hsame _ H); by right].
+  destruct (w_nodes w !! node) as [nip|]; [|apply (Hsame _ H); by left].
+  destruct (node_subnet (w_ipam w) nip) as [sn|]; [|apply (Hsame _ H); by left].
+  match type of H with (match ?X with [] => _ | _ :: _ => _ end) = _ => destruct X as [|rs0 missing'] eqn:Emiss end.
+  - destruct (alloc_in_subnet (w_ipam w) key sn a (o_choice o) (bool_decide (f_store fl = Some 0%nat))) as [[i' ra] ox] eqn:Ea.
+    pose proof (inv2_alloc_in_subnet (w_ipam w) key sn a (o_choice o) (bool_decide (f_store fl = Some 0%nat)) HI) as HI'.
+    rewrite Ea in HI'. simpl in HI'.
+    apply alloc_in_subnet_spec in Ea as [(-> & x & -> & Hx & _ & Hal & _)|(Hne & -> & ->)].
+    + inversion H; subst; clear H. cbn [set_ipam w_ipam w_pods w_lister w_queue]. split_and!; try done.
+      * eapply chg_insert_free; [|exact Hal|done|done]. destruct HI as [HI _]. by apply (inv_disj _ HI).
+      * intros ips Hips y Hy. inversion Hips; subst. apply elem_of_list_singleton in Hy as ->. right.
+        eexists. rewrite Hal, lookup_insert. done.
+    + destruct ra; try done; apply (Hsame _ H); by left.
+  - destruct (alloc_ranges (w_ipam w) key sn (rs0 :: missing') a (f_store fl)) as [[i' ra] fresh] eqn:Ea.
+    pose proof (inv2_alloc_ranges (w_ipam w) key sn (rs0 :: missing') a (f_store fl) HI) as HI'.
+    rewrite Ea in HI'. simpl in HI'.
+    assert (rss ≠ []) as Hrss.
+    { intros ->. destruct slots; discriminate Emiss. }
+    specialize (Hslots Hrss).
+    apply alloc_ranges_spec in Ea as [(-> & _ & _ & Hfresh & Hal & _)|(Hne & _)]; [| |by destruct HI].
+    + inversion H; subst w1 oips; clear H. cbn [set_ipam w_ipam w_pods w_lister w_queue]. split_and!; try done.
+      * intros y. rewrite Hal. destruct (bool_decide (y ∈ fresh)) eqn:Ey; [|by left].
+        apply bool_decide_eq_true in Ey. right. eexists. split_and!; try done.
+        intros e He. destruct HI as [HI _]. rewrite (inv_disj _ HI y) in He; [done|]. by apply Hfresh.
+      * intros ips Hips y Hy. inversion Hips; subst ips; clear Hips. fold (somes (by_key_ranges i' key rss)) in Hy.
+        apply elem_of_somes in Hy. destruct (by_key_ranges_keyed _ _ _ _ Hy) as (e & He & Hk).
+        rewrite Hal in He. destruct (bool_decide (y ∈ fresh)) eqn:Ey.
+        -- right. exists e. inversion He; subst e. rewrite Hal, Ey. done.
+        -- left. apply existsb_eqb_elem, elem_of_somes. rewrite Hslots.
+           eapply by_key_ranges_old; [|exact Hy|by exists e].
+           intros z ez Hz Hkz. rewrite Hal. destruct (bool_decide (z ∈ fresh)); eexists; done.
+    + destruct ra; try done; apply (Hsame _ H); by left.
+Qed.
+
+(** the stored-UID guard over all IPs of the key *)
+Lemma f13_guard i key u :
+  existsb (fun x => match i_alloc i !! x with
+                    | Some e => negb (Keys.is_empty (e_uid e)) && negb (str_eqb (e_uid e) u)
+                    | None => false end) (map fst (by_key i key)) = false →
+  ∀ x e, i_alloc i !! x = Some e → e_key e = key → e_uid e = [] ∨ e_uid e = u.
+Proof.
+  intros Hg x e He Hk. destruct (e_uid e) as [|c s] eqn:Eu; [by left|]. right.
+  destruct (str_eqb_spec (c :: s) u) as [|Hne]; [done|]. exfalso.
+  assert (existsb (fun x => match i_alloc i !! x with
+                    | Some e => negb (Keys.is_empty (e_uid e)) && negb (str_eqb (e_uid e) u)
+                    | None => false end) (map fst (by_key i key)) = true) as Ht; [|congruence].
+  apply existsb_exists. exists x. split.
+  - apply in_map_iff. exists (x, e). split; [done|]. by apply by_key_spec.
+  - rewrite He, Eu. simpl. by destruct (str_eqb_spec (c :: s) u).
+Qed.
+
+Lemma bind_section_frame w ns name uid node o fl w' r :
+  WInv w → uid ≠ [] → bind_section true true w ns name uid node o fl = (w', r) →
+  (w' = w ∧ ∀ ips, r ≠ BOk ips) ∨
+  ∃ l w2, w_lister w !! (ns, name) = Some l ∧ uid = pd_uid l ∧
+    (∀ x e, i_alloc (w_ipam w) !! x = Some e → e_key e = pod_key l → e_uid e = [] ∨ e_uid e = pd_uid l) ∧
+    w_pods w2 = w_pods w ∧ w_lister w2 = w_lister w ∧ w_queue w2 = w_queue w ∧ Inv2 (w_ipam w2) ∧
+    chg (eq (pod_key l)) (pod_key l) (pd_uid l) (w_ipam w) (w_ipam w2) ∧
+    ((w' = w2 ∧ ∀ ips, r ≠ BOk ips) ∨
+     ∃ ips w3 out, api_bind w2 (ns, name) uid node ips (f_bind fl =? 1) = (w3, out) ∧
+       (∀ x, x ∈ ips → ∃ e, i_alloc (w_ipam w2) !! x = Some e ∧ e_key e = pod_key l ∧ e_uid e = pd_uid l) ∧
+       match out with
+       | BindOk => w' = w3 ∧ r = BOk ips
+       | BindNotFound => w' = set_queue w3 (w_queue w3 ++ [l]) ∧ r = BErr
+       | BindFail => w' = w3 ∧ r = BErr
+       end).
+Proof.
+  intros HW Huid H. unfold bind_section in H.
+  destruct (w_lister w !! (ns, name)) as [l|] eqn:El; [|left; by inversion H].
+  destruct (wi_lister w HW _ _ El) as [Hlk Hlwf].
+  cbn [andb] in H.
+  match type of H with (if negb ?X then _ else _) = _ => destruct X eqn:Ef2 end; cbn [negb] in H; [|left; by inversion H].
+  assert (uid = pd_uid l) as Hul.
+  { pose proof (wp_uid l Hlwf) as Hne. destruct uid as [|c u]; [done|]. destruct (pd_uid l) as [|c' u']; [done|].
+    by destruct (str_eqb_spec (c :: u) (c' :: u')). }
+  cbv zeta in H.
+  match type of H with (match ?X with Some _ => _ | None => _ end) = _ => destruct X as [slots|] eqn:Eslots end;
+    [|left; by inversion H].
+  match type of H with (if ?X then _ else _) = _ => destruct X eqn:Ef13 end; [left; by inversion H|].
+  pose proof (f13_guard _ _ _ Ef13) as Hf13. clear Ef13.
+  assert (pd_ranges l ≠ [] → slots = by_key_ranges (w_ipam w) (pod_key l) (pd_ranges l)) as Hslots.
+  { intros Hr. destruct (pd_ranges l); [done|]. by inversion Eslots. }
+  set (a := {| a_policy := policy_of l; a_node := node; a_uid := pd_uid l |}) in *.
+  change (match bind_alloc w (pod_key l) node (pd_ranges l) slots a o fl with
+          | Some (w1, Some ips) =>
+              match assign_loop w1 (pod_key l) node a ips (somes slots) 0 0 fl with
+              | (w2, SOk) =>
+                  match api_bind w2 (ns, name) uid node ips (f_bind fl =? 1) with
+                  | (w3, BindOk) => (w3, BOk ips)
+                  | (w3, BindNotFound) => (set_queue w3 (w_queue w3 ++ [l]), BErr)
+                  | (w3, BindFail) => (w3, BErr)
+                  end
+              | (w2, _) => (w2, BErr)
+              end
+          | Some (w1, None) => (w1, BErr)
+          | None => (w, BStuck)
+          end = (w', r)) in H.
+  destruct (bind_alloc w (pod_key l) node (pd_ranges l) slots a o fl) as [[w1 oips]|] eqn:Ealloc; [|left; by inversion H].
+  apply bind_alloc_spec in Ealloc as (Ep1 & El1 & Eq1 & HI1 & Hc1 & Hnone & Hips); [|apply (wi_ipam w HW)|done].
+  destruct oips as [ips|]; [|left; rewrite (Hnone eq_refl) in H; by inversion H].
+  specialize (Hips ips eq_refl). clear Hnone. right.
+  destruct (assign_loop w1 (pod_key l) node a ips (somes slots) 0 0 fl) as [w2 r2] eqn:Eloop.
+  apply assign_loop_frame in Eloop as (Ep2 & El2 & Eq2 & HI2 & Hc2 & Hok).
+  exists l, w2.
+  refine (conj eq_refl (conj Hul (conj Hf13 (conj _ (conj _ (conj _ (conj _ (conj _ _))))))));
+    [congruence|congruence|congruence|auto|by eapply chg_trans|].
+  destruct r2; [|left; by inversion H..]. right.
+  destruct (api_bind w2 (ns, name) uid node ips (f_bind fl =? 1)) as [w3 out] eqn:Ebind.
+  exists ips, w3, out. split_and!; [done| |destruct out; by inversion H].
+  intros x Hx. destruct (Hips x Hx) as [Hr|(e & He & Hk & Hu)].
+  - by apply Hok.
+  - by eapply chg_keeps.
+Qed.
+
+(** the world before pods/binding satisfies the invariant, and the guard still holds there *)
+Lemma bind_pre_winv w w2 l k :
+  WInv w → w_lister w !! k = Some l →
+  (∀ x e, i_alloc (w_ipam w) !! x = Some e → e_key e = pod_key l → e_uid e = [] ∨ e_uid e = pd_uid l) →
+  w_pods w2 = w_pods w → w_lister w2 = w_lister w → w_queue w2 = w_queue w → Inv2 (w_ipam w2) →
+  chg (eq (pod_key l)) (pod_key l) (pd_uid l) (w_ipam w) (w_ipam w2) →
+  WInv w2 ∧ (∀ x e, i_alloc (w_ipam w2) !! x = Some e → e_key e = pod_key l → e_uid e = [] ∨ e_uid e = pd_uid l).
+Proof.
+  intros HW El Hf13 Ep Ell Eq HI Hc. split.
+  - apply (winv_same w w2 HW Ep Ell Eq HI). intros k' q Hq Hlb.
+    destruct (wi_pods w HW k' q Hq) as [Hqk Hqwf].
+    eapply owned_chg; [by eapply wi_owned|exact Hc|done|].
+    intros Hk. destruct (wi_owned w HW k' q Hq Hlb) as [Ho1 _]. destruct Hlb as [_ Hips].
+    destruct (pd_ips q) as [|x ips'] eqn:Eips; [done|]. destruct (Ho1 x) as (e & He & Hke & Hue); [left|].
+    destruct (Hf13 x e He) as [Hu|Hu]; [congruence| |congruence]. rewrite Hue in Hu. exfalso. by apply (wp_uid q Hqwf).
+  - intros x e He Hk. destruct (Hc x) as [E|(e' & He' & Hk' & Hu' & _)].
+    + rewrite E in He. by eapply Hf13.
+    + right. congruence.
+Qed.
+
+Lemma winv_bind w ns name uid node o fl : WInv w → uid ≠ [] → WInv (pstep w (PBind ns name uid node o fl)).1.
+Proof.
+  intros HW Huid. cbn [pstep]. destruct (bind_section true true w ns name uid node o fl) as [w' r] eqn:E.
+  assert (WInv w') as HW'; [|by destruct r].
+  apply bind_section_frame in E as [[-> _]|(l & w2 & El & Hul & Hf13 & Ep & Ell & Eq & HI & Hc & Hrest)]; [done| |done|done].
+  destruct (bind_pre_winv w w2 l _ HW El Hf13 Ep Ell Eq HI Hc) as [HW2 Hf13'].
+  destruct (wi_lister w HW _ _ El) as [Hlk Hlwf].
+  destruct Hrest as [[-> _]|(ips & w3 & out & Ebind & Hips & Hout)]; [done|].
+  apply api_bind_cases in Ebind. destruct out.
+  - destruct Ebind as (q & Hq & Hu & Hnode & ->). destruct Hout as [-> _].
+    apply (winv_bound w2 (ns, name) q l node ips HW2 Hq); [by rewrite Ell|destruct Hu; congruence|done|done].
+  - destruct Ebind as [-> Hnone]. destruct Hout as [-> _].
+    destruct HW2 as [H1 H2 H3 H4 H5 H6 H7]. split; cbn [set_queue w_ipam w_pods w_lister w_queue]; try done.
+    apply Forall_app. split; [done|]. constructor; [|done]. split; [done|]. intros p Hp. rewrite Hlk in Hp. congruence.
+  - destruct Hout as [-> _]. by subst.
+Qed.
+
+Lemma bind_ok_owned w ns name uid node o fl w' ips : WInv w → uid ≠ [] →
+  bind_section true true w ns name uid node o fl = (w', BOk ips) →
+  ∃ q, w_pods w' !! (ns, name) = Some q ∧ pd_uid q = uid ∧ pd_node q = node ∧ pd_ips q = ips ∧
+       ∀ x, x ∈ ips → ∃ e, i_alloc (w_ipam w') !! x = Some e ∧ e_key e = pod_key q ∧ e_uid e = uid.
+Proof.
+  intros HW Huid E.
+  apply bind_section_frame in E as [[_ Hno]|(l & w2 & El & Hul & Hf13 & Ep & Ell & Eq & HI & Hc & Hrest)];
+    [by destruct (Hno ips)| |done|done].
+  destruct (bind_pre_winv w w2 l _ HW El Hf13 Ep Ell Eq HI Hc) as [HW2 Hf13'].
+  destruct Hrest as [[_ Hno]|(ips' & w3 & out & Ebind & Hips & Hout)]; [by destruct (Hno ips)|].
+  apply api_bind_cases in Ebind. destruct out; [|by destruct Hout..].
+  destruct Ebind as (q & Hq & Hu & Hnode & ->). destruct Hout as [-> Hr]. inversion Hr; subst ips'; clear Hr.
+  assert (pd_uid q = pd_uid l) as Hql by (destruct Hu; congruence).
+  assert (w_lister w2 !! (ns, name) = Some l) as El2 by (by rewrite Ell).
+  destruct (same_static_key _ _ (wi_static w2 HW2 _ q l Hq El2 Hql)) as (Hkey & _ & _).
+  exists (bound_pod q node ips). cbn [set_pods w_pods w_ipam]. rewrite lookup_insert. split_and!; try done; [cbn [bound_pod pd_uid]; congruence|].
+  intros x Hx. destruct (Hips x Hx) as (e & He & Hk & Hue). exists e. split_and!; [done| |congruence].
+  rewrite Hk, <- Hkey. reflexivity.
+Qed.
+
+Print Assumptions winv_filter.
+Print Assumptions winv_bind.
+Print Assumptions bind_ok_owned.
